@@ -55,6 +55,7 @@ pub struct Acc {
     pub samples: Vec<Value>,
     pub notes: Vec<String>,
     pub inconclusive: Vec<String>,
+    pub extra: BTreeMap<String, String>,
 }
 
 impl Acc {
@@ -77,6 +78,7 @@ impl Acc {
             "samples": self.samples,
             "notes": self.notes,
             "inconclusive": self.inconclusive,
+            "extra": self.extra,
             "wall_s": wall,
         })
     }
@@ -235,6 +237,20 @@ fn main() {
         }
         "hist" => run_hist(&a, &mut acc),
         "lane" => lanes::run(&argv[2], &Args::parse(&argv[3..]), &mut acc),
+        "digest" => {
+            let txt = std::fs::read_to_string(&argv[2]).expect("read trace file");
+            let v: Value = serde_json::from_str(&txt).expect("parse trace file");
+            match lanes::c19::digest_of_trace(&v) {
+                Ok(d) => {
+                    println!("{}", d.iter().map(|x| format!("{x:x}")).collect::<Vec<_>>().join(","));
+                    return;
+                }
+                Err(e) => {
+                    println!("INCONCLUSIVE digest failed: {e}");
+                    std::process::exit(2);
+                }
+            }
+        }
         "replay" => {
             let txt = std::fs::read_to_string(&argv[2]).expect("read replay file");
             let v: Value = serde_json::from_str(&txt).expect("parse replay file");
